@@ -245,3 +245,66 @@ func VH_C18_Select() {
 	}
 	vReach("mapped")
 }
+
+// VH_C18_Chain: three recording mappers, each with its own selection of
+// token types (or none = every token), registered in one Build.  Every
+// recorder sees each non-EOF token of its own selection exactly once, in
+// stream order, whatever the other mappers select.
+var vhChainSelections = [][]string{nil, {"A"}, {"B"}, {"A", "B"}, {"C"}}
+
+const vhChainTokens = 2 // @tier quick=2 thorough=3
+
+func VH_C18_Chain() {
+	n := vChoose("ntokens", vhChainTokens+1)
+	toks := make([]lexer.Token, 0, n+1)
+	for i := 0; i < n; i++ {
+		ty := lexer.TokenType(vInt("type"))
+		vAssume(ty != lexer.EOF)
+		toks = append(toks, lexer.Token{Type: ty, Value: "v", Pos: lexer.Position{Filename: "f", Offset: i, Line: 1, Column: i + 1}})
+	}
+	toks = append(toks, lexer.EOFToken(lexer.Position{Filename: "f", Offset: n, Line: 1, Column: n + 1}))
+	const k = 3
+	var seen [k][]vhSeen
+	var sel [k][]string
+	opts := []Option{Lexer(&vhMapDef{toks: toks})}
+	for m := 0; m < k; m++ {
+		m := m
+		sel[m] = vhChainSelections[vChoose("selection", len(vhChainSelections))]
+		opts = append(opts, Map(func(t lexer.Token) (lexer.Token, error) {
+			if !t.EOF() {
+				seen[m] = append(seen[m], vhSeen{t.Type, t.Pos.Offset})
+			}
+			return t, nil
+		}, sel[m]...))
+	}
+	p, err := Build[vgMapped](opts...)
+	vAssert(err == nil, "catalogue grammar must build")
+	got, lerr := p.Lex("f", strings.NewReader(""))
+	vAssert(lerr == nil, "C18: lexing through the mappers failed")
+	vAssert(len(got) == len(toks), "C18: mappers changed the number of tokens")
+	for m := 0; m < k; m++ {
+		var want []vhSeen
+		for _, t := range toks {
+			if t.EOF() {
+				continue
+			}
+			selected := len(sel[m]) == 0
+			for _, s := range sel[m] {
+				if vhMapSymbols[s] == t.Type {
+					selected = true
+				}
+			}
+			if selected {
+				want = append(want, vhSeen{t.Type, t.Pos.Offset})
+			}
+		}
+		vAssert(len(seen[m]) == len(want), "C18: a Map function did not see each token of its selection exactly once")
+		for i := range want {
+			vAssert(seen[m][i] == want[i], "C18: a Map function saw tokens out of order or outside its selection")
+		}
+	}
+	for i, t := range toks {
+		vAssert(got[i].Pos == t.Pos && got[i].Type == t.Type && got[i].Value == t.Value, "C18: recording mappers changed a token")
+	}
+	vReach("chained")
+}
